@@ -93,6 +93,24 @@
       key-sorted table front to back (which of several panicking rounds fires is the only order-dependent observation;
       panic sites are not compared); `btree.range(r)` for a `Range<u64>` value is the key-ordered list of the bindings
       with `r.start ≤ k < r.end` and panics when `r.start > r.end` (as std does);
+    * HASHMAP ITERATION ORDER is unspecified in Rust; translated iteration uses KEY ORDER (the model's tables are
+      key-sorted).  It is accepted only where the manifest lists the loop / chain, in two forms:
+      (a) mutating loops `for v in map.values_mut()` / `for (k, v) in map.iter_mut()` (HASHMAP_VALUES_MUT_OK), under the
+      translator's own check described above (a plain `continue` is allowed: it only ends its round) — the final state
+      is order-independent;
+      (b) read-only chains `map.iter().filter(..).map(..)` (HASHMAP_ITER_ORDER_OK): either the consumer does not depend
+      on the order (`count()`), or the result exposes it (`RenetServer::clients_id`, `disconnections_id`) and then the
+      equivalence theorems CLAIM THE RESULT ONLY UP TO A PERMUTATION (`List.Perm`);
+      `impl Iterator<Item = T>` as a return type is the list of the items: adaptor chains are evaluated eagerly;
+      `iter.filter(|pat| e)` whose `e` calls translated functions is `filterM` (the predicate runs on every element in
+      order; the accepted closures cannot assign and contain no `return` / `?`, so laziness would only change which
+      panic is seen first if a consumer stopped early — every translated consumer runs to the end);
+    * a unit struct is the structure without fields; `x.clone()` on a translated struct / enum that has
+      `#[derive(Clone)]` is the identity; a `&mut T` parameter of a translated struct type `T` is threaded through like
+      the `&mut uN` parameters (disjoint from `self` and the other arguments by the borrow rules);
+      `match map.get_mut(&k) { Some(x) => A, None => B }` is `if let Some(x) = map.get_mut(&k) { A } else { B }`;
+      `x.into()` without a type annotation on a byte container keeps the value (all byte containers share one
+      representation);
     * a type parameter `I: Into<T>` is `T` and `x.into()` the identity on it (what every caller in the crates passes:
       `u8` channel ids, `Bytes` / `Vec<u8>` messages); a `Result` call whose result the caller inspects
       (`if let Err(e) = f(..)`, `match f(..) { Ok(..) => .., Err(..) => .. }`) is `Exec.attempt`: the `&mut` state the
@@ -222,6 +240,13 @@ where
   loop : Nat → Nat → σ → Exec ε ρ σ
     | 0, _, st => .val st
     | n + 1, i, st => (body i st).bind fun st' => loop n (i + 1) st'
+
+/-- `iter.filter(|x| p(x))` where `p` calls translated functions: the predicate is run for every element in order
+    (eagerly — the accepted closures cannot assign, so laziness is only observable through which panic comes first) -/
+def filterM {ε ρ α : Type} (l : List α) (p : α → Exec ε ρ Bool) : Exec ε ρ (List α) :=
+  match l with
+  | [] => .val []
+  | x :: r => (p x).bind fun b => (filterM r p).bind fun r' => .val (if b then x :: r' else r')
 
 /-- how one run of a `while` body ended early: `return r` of the function, `continue`, `break`
     (both with the current values of the loop-carried variables) -/
